@@ -374,7 +374,15 @@ func visitInstr(fr *frame, instr ssa.Instruction) continuation {
 		fr.env[instr] = makeMap(instr.Type().Underlying().(*types.Map).Key(), reserve)
 
 	case *ssa.Range:
-		fr.env[instr] = rangeIter(fr.i, fr.get(instr.X), instr.X.Type())
+		it := rangeIter(fr.i, fr.get(instr.X), instr.X.Type())
+		if ex := fr.i.ex; ex != nil && len(ex.S.PermuteRanges) > 0 {
+			if sm, ok := it.(*sortedMapIter); ok && len(sm.keys) >= 2 && len(sm.keys) <= 3 && ex.S.PermuteRanges[fr.fn.String()] {
+				// Go iterates maps in random order: here the order is a symbolic
+				// permutation (one forked path per order)
+				ex.permuteKeys(sm)
+			}
+		}
+		fr.env[instr] = it
 
 	case *ssa.Next:
 		fr.env[instr] = fr.get(instr.Iter).(iter).next()
